@@ -61,9 +61,21 @@ type gl struct {
 	iterRec   string
 	funcs   map[string]*glFunc
 	order   []string
+	// extensions: floats as integers (align), object-based names, fuel for `for cond {}` loops
+	floatInt    bool                    // float64 is translated as Int (declared abstraction, see DESIGN §15.2)
+	names       map[types.Object]string // Lean name of each local object
+	takenMut    map[string]bool         // Lean names already bound by a `let mut` in this function
+	nTmp        int
+	usesFuel    bool
+	loops       []string // enclosing breakable statements: "for", "switch", "while:<k>"
+	nWhile      int
+	results     []*types.Var // result variables of the function being translated (plain mode)
+	namedRes    bool
+	methodNames map[string]string // "<RecvType>.<method>" -> translated name
 }
 
 type glFunc struct {
+	fuel    bool // takes a leading `fuel : Nat` parameter
 	name    string
 	globals []string // transitive, sorted in first-use order
 	text    string
@@ -95,6 +107,10 @@ func (g *gl) leanType(t types.Type) string {
 			return "Bool"
 		case types.String:
 			return "List UInt8"
+		case types.Float64, types.UntypedFloat:
+			if g.floatInt {
+				return "Int"
+			}
 		}
 	case *types.Slice:
 		return "List " + paren(g.leanType(u.Elem()))
@@ -149,11 +165,26 @@ func (g *gl) zero(t types.Type) string {
 			return "false"
 		case types.String:
 			return "[]"
+		case types.Float64:
+			if g.floatInt {
+				return "(0 : Int)"
+			}
 		}
 	case *types.Slice, *types.Map:
 		return "[]"
 	case *types.Array:
 		return fmt.Sprintf("(List.replicate %d %s)", u.Len(), g.zero(u.Elem()))
+	case *types.Struct:
+		if u.NumFields() > 0 {
+			var zs []string
+			for i := 0; i < u.NumFields(); i++ {
+				zs = append(zs, bareZero(g.zero(u.Field(i).Type())))
+			}
+			if len(zs) == 1 {
+				return g.zero(u.Field(0).Type())
+			}
+			return "(" + strings.Join(zs, ", ") + ")"
+		}
 	}
 	g.die(nil, "zero of "+t.String())
 	return ""
@@ -236,7 +267,15 @@ func isByte(t types.Type) bool {
 }
 func isInt(t types.Type) bool {
 	b, ok := t.Underlying().(*types.Basic)
-	return ok && (b.Kind() == types.Int || b.Kind() == types.UntypedInt || b.Kind() == types.UntypedRune)
+	return ok && (b.Kind() == types.Int || b.Kind() == types.UntypedInt || b.Kind() == types.UntypedRune || (floatAsInt && (b.Kind() == types.Float64 || b.Kind() == types.UntypedFloat)))
+}
+
+// floatAsInt mirrors gl.floatInt for the free predicates (set while an align-like package is translated)
+var floatAsInt bool
+
+func isFloat(t types.Type) bool {
+	b, ok := t.Underlying().(*types.Basic)
+	return ok && (b.Kind() == types.Float64 || b.Kind() == types.UntypedFloat || b.Kind() == types.Float32)
 }
 func isList(t types.Type) bool {
 	switch u := t.Underlying().(type) {
@@ -291,7 +330,7 @@ var leanKeywords = map[string]bool{"at": true, "from": true, "fun": true, "do": 
 var vocabulary = map[string]bool{"idx": true, "setIdx": true, "slice": true, "len": true, "upTo": true, "upToStep": true, "downFrom": true,
 	"enum": true, "cmp": true, "u8": true, "shl8": true, "shrInt": true, "andInt": true, "quo": true, "rem": true, "mapGet": true,
 	"copyInto": true, "containsAny": true, "replaceAll": true, "scan": true, "scanErr": true, "endErr": true, "wrWrite": true, "itoa": true,
-	"setInsert": true, "setErase": true, "sortInts": true, "sortByLess": true, "searchGo": true, "min": true, "max": true,
+	"mapHas": true, "makeCap": true, "fuel": true, "setInsert": true, "setErase": true, "sortInts": true, "sortByLess": true, "searchGo": true, "min": true, "max": true,
 	"none": true, "some": true, "pure": true}
 
 // variables the translation introduces in reader / iterator / writer methods and iter.Seq closures
@@ -304,6 +343,33 @@ func ln(name string) string {
 		return name + "_"
 	}
 	return name
+}
+
+// nameOf gives every local object its Lean name: the Go name (sanitised), with a numeric suffix when
+// a different object of the same name was already bound by `let mut` in this function (Lean does not
+// allow shadowing a mutable variable; Go does)
+func (g *gl) nameOf(o types.Object) string {
+	if n, ok := g.names[o]; ok {
+		return n
+	}
+	base := ln(o.Name())
+	name := base
+	for k := 1; g.takenMut[name]; k++ {
+		name = fmt.Sprintf("%s_%d", base, k)
+	}
+	if g.names == nil {
+		g.names = map[types.Object]string{}
+	}
+	g.names[o] = name
+	if g.mut[o] {
+		g.takenMut[name] = true
+	}
+	return name
+}
+
+func (g *gl) tmp() string {
+	g.nTmp++
+	return fmt.Sprintf("tmp_%d", g.nTmp)
 }
 
 func (g *gl) constant(e ast.Expr) (ex, bool) {
@@ -321,6 +387,18 @@ func (g *gl) constant(e ast.Expr) (ex, bool) {
 			return ex{text: fmt.Sprintf("%d", v)}, true
 		}
 		return atomE(fmt.Sprintf("%d", v)), true
+	case constant.Float:
+		if g.floatInt {
+			if iv := constant.ToInt(tv.Value); iv.Kind() == constant.Int {
+				if v, exact := constant.Int64Val(iv); exact {
+					if v < 0 {
+						return ex{text: fmt.Sprintf("%d", v)}, true
+					}
+					return atomE(fmt.Sprintf("%d", v)), true
+				}
+			}
+		}
+		g.die(e, "floating-point constant")
 	case constant.Bool:
 		return atomE(fmt.Sprintf("%v", constant.BoolVal(tv.Value))), true
 	case constant.String:
@@ -354,7 +432,7 @@ func (g *gl) ident(id *ast.Ident) ex {
 			g.globals[o.Name()] = true
 			return atomE("g_" + o.Name())
 		}
-		return atomE(ln(o.Name()))
+		return atomE(g.nameOf(o))
 	case *types.Nil:
 		return atomE("[]")
 	}
@@ -399,6 +477,47 @@ func (g *gl) expr(e ast.Expr) ex {
 		return g.ident(v)
 	case *ast.CompositeLit:
 		t := g.typeOf(v)
+		if st, ok := t.Underlying().(*types.Struct); ok && st.NumFields() > 0 && len(v.Elts) > 0 {
+			if _, keyed := v.Elts[0].(*ast.KeyValueExpr); keyed {
+				parts := make([]string, st.NumFields())
+				for k := range parts {
+					parts[k] = bareZero(g.zero(st.Field(k).Type()))
+				}
+				for _, el := range v.Elts {
+					kv, ok := el.(*ast.KeyValueExpr)
+					if !ok {
+						g.die(v, "mixed struct literal")
+					}
+					kid, ok := kv.Key.(*ast.Ident)
+					if !ok {
+						g.die(v, "struct literal key")
+					}
+					found := false
+					for k := 0; k < st.NumFields(); k++ {
+						if st.Field(k).Name() == kid.Name {
+							parts[k], found = g.expr(kv.Value).opnd(), true
+						}
+					}
+					if !found {
+						g.die(v, "struct literal key")
+					}
+				}
+				if len(parts) == 1 {
+					return ex{text: parts[0]}
+				}
+				return atomE("(" + strings.Join(parts, ", ") + ")")
+			}
+		}
+		if at, ok := t.Underlying().(*types.Array); ok && int64(len(v.Elts)) == at.Len() {
+			var parts []string
+			for _, el := range v.Elts {
+				if _, isKV := el.(*ast.KeyValueExpr); isKV {
+					g.die(v, "keyed array literal")
+				}
+				parts = append(parts, g.expr(el).opnd())
+			}
+			return atomE("[" + strings.Join(parts, ", ") + "]")
+		}
 		if st, ok := t.Underlying().(*types.Struct); ok && len(v.Elts) == st.NumFields() && st.NumFields() > 0 {
 			var parts []string
 			for _, el := range v.Elts {
@@ -509,6 +628,9 @@ func (g *gl) binary(v *ast.BinaryExpr) ex {
 			return infix(map[token.Token]string{token.ADD: "+", token.SUB: "-", token.MUL: "*"}[v.Op])
 		}
 	case token.QUO, token.REM:
+		if isFloat(lt) {
+			g.die(v, "floating-point division")
+		}
 		if isInt(lt) {
 			fn, pf := "Int.tdiv", "quo"
 			if v.Op == token.REM {
@@ -524,7 +646,7 @@ func (g *gl) binary(v *ast.BinaryExpr) ex {
 			return infix("|||")
 		}
 	case token.AND:
-		if isInt(lt) {
+		if isInt(lt) && !isFloat(lt) {
 			return ex{text: "andInt " + l.arg() + " " + r.arg()}
 		}
 	case token.SHL:
@@ -532,7 +654,7 @@ func (g *gl) binary(v *ast.BinaryExpr) ex {
 			return ex{text: "shl8 " + l.arg() + " " + r.arg(), act: true}
 		}
 	case token.SHR:
-		if isInt(lt) {
+		if isInt(lt) && !isFloat(lt) {
 			return ex{text: "shrInt " + l.arg() + " " + r.arg(), act: true}
 		}
 	case token.EQL, token.NEQ, token.LSS, token.LEQ, token.GTR, token.GEQ:
@@ -659,7 +781,13 @@ func (g *gl) call(c *ast.CallExpr) ex {
 				if sl, ok := t.Underlying().(*types.Slice); ok {
 					if len(c.Args) == 3 {
 						if cv, ok := g.info.Types[c.Args[1]]; ok && cv.Value != nil && constant.Sign(cv.Value) == 0 {
-							return atomE("[]") // make([]T, 0, cap): capacity is not modelled
+							// make([]T, 0, cap): the capacity is not modelled, but evaluating it can panic
+							// (a division by zero inside it, a negative value)
+							if g.nonNegative(c.Args[2]) {
+								return atomE("[]")
+							}
+							cp := g.expr(c.Args[2])
+							return ex{text: "makeCap " + cp.arg(), act: true}
 						}
 					}
 					if len(c.Args) == 2 {
@@ -682,12 +810,48 @@ func (g *gl) call(c *ast.CallExpr) ex {
 				g.globals[gv] = true
 				parts = append(parts, "g_"+gv)
 			}
+			if callee.fuel {
+				g.usesFuel = true
+				parts = append(parts, "fuel")
+			}
 			for _, a := range c.Args {
 				parts = append(parts, g.expr(a).arg())
 			}
 			return ex{text: strings.Join(parts, " "), act: true}
 		}
 	case *ast.SelectorExpr:
+		// x.M(args) for a translated method M of a named non-struct type of this package
+		if fn, ok := g.info.Uses[f.Sel].(*types.Func); ok && fn.Pkg() == g.pkg {
+			if sig, ok := fn.Type().(*types.Signature); ok && sig.Recv() != nil {
+				rt := sig.Recv().Type()
+				if p, ok := rt.(*types.Pointer); ok {
+					rt = p.Elem()
+				}
+				if named, ok := rt.(*types.Named); ok {
+					if _, isStruct := named.Underlying().(*types.Struct); !isStruct {
+						lname, ok := g.methodNames[named.Obj().Name()+"."+fn.Name()]
+						callee := g.funcs[lname]
+						if !ok || callee == nil || !callee.found {
+							g.die(c, "call of untranslated method "+named.Obj().Name()+"."+fn.Name())
+						}
+						parts := []string{lname}
+						for _, gv := range callee.globals {
+							g.globals[gv] = true
+							parts = append(parts, "g_"+gv)
+						}
+						if callee.fuel {
+							g.usesFuel = true
+							parts = append(parts, "fuel")
+						}
+						parts = append(parts, g.expr(f.X).arg())
+						for _, a := range c.Args {
+							parts = append(parts, g.expr(a).arg())
+						}
+						return ex{text: strings.Join(parts, " "), act: true}
+					}
+				}
+			}
+		}
 		if id, ok := f.X.(*ast.Ident); ok {
 			if pn, ok := g.info.Uses[id].(*types.PkgName); ok {
 				if pn.Imported().Path() == "bytes" && f.Sel.Name == "Compare" && len(c.Args) == 2 {
@@ -777,19 +941,157 @@ func bindText(kw, name string, rhs ex) string {
 	return kw + name + " := " + rhs.text
 }
 
-func (g *gl) assignTo(w *wr, lhs ast.Expr, tok token.Token, rhs ast.Expr) {
-	opOf := map[token.Token]token.Token{token.ADD_ASSIGN: token.ADD, token.SUB_ASSIGN: token.SUB, token.OR_ASSIGN: token.OR}
-	if se, ok := lhs.(*ast.SelectorExpr); ok {
-		// field of a struct-pointer local: a variable of its own
-		e := g.expr(se)
-		var r ex
-		if tok == token.ASSIGN {
-			r = g.expr(rhs)
-		} else {
-			g.die(lhs, "assignment operator on a field")
+// constParallel: a parallel assignment that may be carried out sequentially -- every right-hand side is a
+// constant and no left-hand side can influence another (plain variables, or elements at constant indices)
+func (g *gl) constParallel(v *ast.AssignStmt) bool {
+	for _, r := range v.Rhs {
+		if tv, ok := g.info.Types[r]; !ok || tv.Value == nil {
+			return false
 		}
-		w.line(bindText("", e.text, r))
-		return
+	}
+	plain := map[string]bool{}
+	for _, l := range v.Lhs {
+		switch x := l.(type) {
+		case *ast.Ident:
+			plain[x.Name] = true
+		case *ast.IndexExpr:
+			if tv, ok := g.info.Types[x.Index]; !ok || tv.Value == nil {
+				return false
+			}
+		default:
+			return false
+		}
+	}
+	for _, l := range v.Lhs {
+		if ie, ok := l.(*ast.IndexExpr); ok {
+			for n := range identsIn(ie.Index) {
+				if plain[n] {
+					return false
+				}
+			}
+		}
+	}
+	return true
+}
+
+// nonNegative: an expression built from len(…), non-negative constants, + and * only
+func (g *gl) nonNegative(e ast.Expr) bool {
+	if tv, ok := g.info.Types[e]; ok && tv.Value != nil {
+		return constant.Sign(tv.Value) >= 0
+	}
+	switch x := e.(type) {
+	case *ast.ParenExpr:
+		return g.nonNegative(x.X)
+	case *ast.CallExpr:
+		if id, ok := x.Fun.(*ast.Ident); ok && id.Name == "len" && len(x.Args) == 1 {
+			if _, isB := g.info.Uses[id].(*types.Builtin); isB {
+				a := g.expr(x.Args[0])
+				return !a.act && !strings.Contains(a.text, "(← ")
+			}
+		}
+	case *ast.BinaryExpr:
+		if x.Op == token.ADD || x.Op == token.MUL {
+			return g.nonNegative(x.X) && g.nonNegative(x.Y)
+		}
+	}
+	return false
+}
+
+// oneLit stands for the constant 1 of `x++` / `x--`
+var oneLit = &ast.BasicLit{Kind: token.INT, Value: "1"}
+
+func (g *gl) rhsOf(e ast.Expr) ex {
+	if e == ast.Expr(oneLit) {
+		return atomE("1")
+	}
+	return g.expr(e)
+}
+
+// tupleSet: the n-field tuple t with field k replaced by v
+func tupleSet(t string, k, n int, v string) string {
+	if n == 1 {
+		return v
+	}
+	var parts []string
+	for i := 0; i < n; i++ {
+		if i == k {
+			parts = append(parts, v)
+		} else {
+			parts = append(parts, tupleProj(t, i, n))
+		}
+	}
+	return "(" + strings.Join(parts, ", ") + ")"
+}
+
+var opOf = map[token.Token]token.Token{token.ADD_ASSIGN: token.ADD, token.SUB_ASSIGN: token.SUB, token.OR_ASSIGN: token.OR}
+var opSym = map[token.Token]string{token.ADD: "+", token.SUB: "-", token.OR: "|||"}
+
+// fieldOf: index and count of the field selected by se in its struct
+func (g *gl) fieldOf(se *ast.SelectorExpr) (int, int, bool) {
+	st, ok := g.structOf(se.X)
+	if !ok {
+		return 0, 0, false
+	}
+	for k := 0; k < st.NumFields(); k++ {
+		if st.Field(k).Name() == se.Sel.Name {
+			return k, st.NumFields(), true
+		}
+	}
+	return 0, 0, false
+}
+
+func (g *gl) assignTo(w *wr, lhs ast.Expr, tok token.Token, rhs ast.Expr) {
+	if se, ok := lhs.(*ast.SelectorExpr); ok {
+		if id, isLoc := se.X.(*ast.Ident); isLoc && g.structLoc[g.objOf(id)] != nil {
+			// field of a struct-pointer local: a variable of its own
+			e := g.expr(se)
+			var r ex
+			if tok == token.ASSIGN {
+				r = g.rhsOf(rhs)
+			} else {
+				g.die(lhs, "assignment operator on a field")
+			}
+			w.line(bindText("", e.text, r))
+			return
+		}
+		k, n, ok := g.fieldOf(se)
+		if !ok {
+			g.die(lhs, "assignment to a field of a non-struct")
+		}
+		value := func(cur string) string {
+			if tok == token.ASSIGN {
+				return g.rhsOf(rhs).arg()
+			}
+			op, ok := opOf[tok]
+			if !ok || op == token.OR && !isByte(g.typeOf(se)) || !(isInt(g.typeOf(se)) || isByte(g.typeOf(se))) {
+				g.die(lhs, "assignment operator")
+			}
+			return "(" + tupleProj(cur, k, n) + " " + opSym[op] + " " + g.rhsOf(rhs).arg() + ")"
+		}
+		switch x := se.X.(type) {
+		case *ast.Ident: // v.f = …  for a struct-valued variable
+			if _, isPtr := g.typeOf(x).Underlying().(*types.Pointer); isPtr {
+				g.die(lhs, "assignment through a pointer")
+			}
+			name := g.lvName(x)
+			w.line(name + " := " + tupleSet(name, k, n, value(name)))
+			return
+		case *ast.IndexExpr: // x[i].f = …  for a slice of structs
+			id, ok := x.X.(*ast.Ident)
+			if !ok || !isList(g.typeOf(x.X)) {
+				break
+			}
+			if _, isPtr := g.typeOf(x).Underlying().(*types.Pointer); isPtr {
+				g.die(lhs, "assignment through a pointer")
+			}
+			name := g.lvName(id)
+			ti, te := g.tmp(), g.tmp()
+			w.line("let " + ti + " : Int := " + g.indexInt(x.Index))
+			w.line("let " + te + " ← idx " + name + " " + ti)
+			w.line(name + " ← setIdx " + name + " " + ti + " " + tupleSet(te, k, n, value(te)))
+			return
+		}
+		g.die(lhs, "assignment target")
 	}
 	switch l := lhs.(type) {
 	case *ast.Ident:
@@ -799,9 +1101,16 @@ func (g *gl) assignTo(w *wr, lhs ast.Expr, tok token.Token, rhs ast.Expr) {
 		name := g.lvName(l)
 		var r ex
 		if tok == token.ASSIGN {
-			r = g.expr(rhs)
+			r = g.rhsOf(rhs)
 		} else if op, ok := opOf[tok]; ok {
-			r = g.binary(&ast.BinaryExpr{X: l, Op: op, Y: rhs})
+			if rhs == ast.Expr(oneLit) {
+				if !isInt(g.typeOf(l)) || isFloat(g.typeOf(l)) {
+					g.die(lhs, "++/-- on a non-int")
+				}
+				r = ex{text: name + " " + opSym[op] + " 1"}
+			} else {
+				r = g.binary(&ast.BinaryExpr{X: l, Op: op, Y: rhs})
+			}
 		} else {
 			g.die(lhs, "assignment operator")
 		}
@@ -823,10 +1132,9 @@ func (g *gl) assignTo(w *wr, lhs ast.Expr, tok token.Token, rhs ast.Expr) {
 		i := g.indexInt(l.Index)
 		var val string
 		if tok == token.ASSIGN {
-			val = g.expr(rhs).arg()
+			val = g.rhsOf(rhs).arg()
 		} else if op, ok := opOf[tok]; ok {
-			sym := map[token.Token]string{token.ADD: "+", token.SUB: "-", token.OR: "|||"}[op]
-			val = "((← idx " + name + " " + i + ") " + sym + " " + g.expr(rhs).arg() + ")"
+			val = "((← idx " + name + " " + i + ") " + opSym[op] + " " + g.rhsOf(rhs).arg() + ")"
 		} else {
 			g.die(lhs, "assignment operator")
 		}
@@ -843,6 +1151,91 @@ func (g *gl) stmt(w *wr, s ast.Stmt) {
 	switch v := s.(type) {
 	case *ast.AssignStmt:
 		if _, ok := g.fprintfStmt(w, v); ok {
+			return
+		}
+		if v.Tok == token.DEFINE && g.rdKind == "" && len(v.Lhs) == 2 && len(v.Rhs) == 1 {
+			// s, ok := m[k]
+			if ie, ok := v.Rhs[0].(*ast.IndexExpr); ok {
+				if m, ok := g.typeOf(ie.X).Underlying().(*types.Map); ok && !isEmptyStruct(m.Elem()) {
+					a, b := v.Lhs[0].(*ast.Ident), v.Lhs[1].(*ast.Ident)
+					if g.info.Defs[a] == nil || g.info.Defs[b] == nil || a.Name == "_" || b.Name == "_" {
+						g.die(v, "comma-ok form with a blank or an already declared variable")
+					}
+					mt, kt := g.tmp(), g.tmp()
+					w.line("let " + mt + " := " + g.expr(ie.X).opnd())
+					w.line("let " + kt + " : " + g.leanType(m.Key()) + " := " + g.expr(ie.Index).opnd())
+					kwA, kwB := "let ", "let "
+					if g.mut[g.objOf(a)] {
+						kwA = "let mut "
+					}
+					if g.mut[g.objOf(b)] {
+						kwB = "let mut "
+					}
+					w.line(kwA + g.nameOf(g.objOf(a)) + " : " + g.leanType(m.Elem()) + " := mapGet " + mt + " " + kt + " " + g.zero(m.Elem()))
+					w.line(kwB + g.nameOf(g.objOf(b)) + " : Bool := mapHas " + mt + " " + kt)
+					return
+				}
+			}
+		}
+		if (v.Tok == token.DEFINE || v.Tok == token.ASSIGN) && g.rdKind == "" && len(v.Lhs) > 1 && len(v.Rhs) == 1 {
+			// a, b, c := f(…) / a, b = f(…): the callee returns a tuple
+			if c, ok := v.Rhs[0].(*ast.CallExpr); ok {
+				if tup, ok := g.typeOf(c).(*types.Tuple); ok && tup.Len() == len(v.Lhs) {
+					t := g.tmp()
+					w.line(bindText("let ", t, g.expr(c)))
+					for i, l := range v.Lhs {
+						id, ok := l.(*ast.Ident)
+						if !ok {
+							g.die(v, "multi-value assignment target")
+						}
+						if id.Name == "_" {
+							continue
+						}
+						proj := tupleProj(t, i, tup.Len())
+						if v.Tok == token.DEFINE && g.info.Defs[id] != nil {
+							kw := "let "
+							if g.mut[g.objOf(id)] {
+								kw = "let mut "
+							}
+							w.line(kw + g.nameOf(g.objOf(id)) + " := " + proj)
+						} else {
+							w.line(g.lvName(id) + " := " + proj)
+						}
+					}
+					return
+				}
+			}
+		}
+		if v.Tok == token.DEFINE && len(v.Lhs) > 1 && len(v.Lhs) == len(v.Rhs) && g.rdKind == "" {
+			// a, b := x, y: every right-hand side is evaluated before any variable is bound
+			var ts []string
+			for _, r := range v.Rhs {
+				t := g.tmp()
+				ann := ""
+				if tv, ok := g.info.Types[r]; ok && tv.Value != nil {
+					ann = " : " + g.leanType(tv.Type)
+				}
+				w.line(bindText("let ", t+ann, g.expr(r)))
+				ts = append(ts, t)
+			}
+			for i, l := range v.Lhs {
+				id, ok := l.(*ast.Ident)
+				if !ok {
+					g.die(v, "multi-value := target")
+				}
+				if id.Name == "_" {
+					continue
+				}
+				if g.info.Defs[id] != nil {
+					kw := "let "
+					if g.mut[g.objOf(id)] {
+						kw = "let mut "
+					}
+					w.line(kw + g.nameOf(g.objOf(id)) + " : " + g.leanType(g.objOf(id).Type()) + " := " + ts[i])
+				} else {
+					w.line(g.lvName(id) + " := " + ts[i])
+				}
+			}
 			return
 		}
 		if v.Tok == token.DEFINE {
@@ -880,44 +1273,64 @@ func (g *gl) stmt(w *wr, s ast.Stmt) {
 			if tv, ok := g.info.Types[v.Rhs[0]]; ok && tv.Value != nil {
 				ann = " : " + g.leanType(g.objOf(id).Type()) // an unannotated numeral would default to Nat
 			}
-			if g.declared[id.Name] {
+			if g.declared[id.Name] && g.rdKind != "" {
 				g.die(v, "redeclaration of "+id.Name+" in an inner scope")
 			}
 			g.declared[id.Name] = true
-			w.line(bindText(kw, ln(id.Name)+ann, g.expr(v.Rhs[0])))
+			rhsE := g.expr(v.Rhs[0]) // before the name is allotted: `x := f(x)` refers to the outer x
+			w.line(bindText(kw, g.nameOf(g.objOf(id))+ann, rhsE))
 			return
 		}
 		if len(v.Lhs) == len(v.Rhs) {
 			if len(v.Lhs) > 1 {
-				// parallel assignment: sequential only when every right-hand side is a constant and no
-				// left-hand side can influence another (plain variables, or elements at constant indices)
-				for _, r := range v.Rhs {
-					if tv, ok := g.info.Types[r]; !ok || tv.Value == nil {
-						g.die(v, "parallel assignment of non-constants")
-					}
+				// parallel assignment (Go spec): first the index operands on the left and all right-hand sides
+				// are evaluated, then the assignments are carried out left to right
+				if v.Tok != token.ASSIGN {
+					g.die(v, "parallel assignment operator")
 				}
-				plain := map[string]bool{}
+				if g.constParallel(v) {
+					for i := range v.Lhs {
+						g.assignTo(w, v.Lhs[i], v.Tok, v.Rhs[i])
+					}
+					return
+				}
+				type tgt struct {
+					name, index string
+				}
+				var tgts []tgt
 				for _, l := range v.Lhs {
 					switch x := l.(type) {
 					case *ast.Ident:
-						plain[x.Name] = true
-					case *ast.IndexExpr:
-						if tv, ok := g.info.Types[x.Index]; !ok || tv.Value == nil {
-							g.die(v, "parallel assignment to a computed index")
+						if x.Name == "_" {
+							g.die(v, "blank in a parallel assignment")
 						}
+						tgts = append(tgts, tgt{g.lvName(x), ""})
+					case *ast.IndexExpr:
+						id, ok := x.X.(*ast.Ident)
+						if !ok || !isList(g.typeOf(x.X)) {
+							g.die(v, "parallel assignment target")
+						}
+						ti := g.tmp()
+						w.line("let " + ti + " : Int := " + g.indexInt(x.Index))
+						tgts = append(tgts, tgt{g.lvName(id), ti})
 					default:
 						g.die(v, "parallel assignment target")
 					}
 				}
-				for _, l := range v.Lhs {
-					if ie, ok := l.(*ast.IndexExpr); ok {
-						for n := range identsIn(ie.Index) {
-							if plain[n] {
-								g.die(v, "parallel assignment whose targets depend on each other")
-							}
-						}
+				var vals []string
+				for i, r := range v.Rhs {
+					tv := g.tmp()
+					w.line(bindText("let ", tv+" : "+g.leanType(g.typeOf(v.Lhs[i])), g.expr(r)))
+					vals = append(vals, tv)
+				}
+				for i, t := range tgts {
+					if t.index == "" {
+						w.line(t.name + " := " + vals[i])
+					} else {
+						w.line(t.name + " ← setIdx " + t.name + " " + t.index + " " + vals[i])
 					}
 				}
+				return
 			}
 			for i := range v.Lhs {
 				g.assignTo(w, v.Lhs[i], v.Tok, v.Rhs[i])
@@ -925,6 +1338,14 @@ func (g *gl) stmt(w *wr, s ast.Stmt) {
 			return
 		}
 	case *ast.IncDecStmt:
+		if g.rdKind == "" {
+			tok := token.ADD_ASSIGN
+			if v.Tok == token.DEC {
+				tok = token.SUB_ASSIGN
+			}
+			g.assignTo(w, v.X, tok, oneLit)
+			return
+		}
 	case *ast.LabeledStmt:
 		if g.rdKind == "bytes" {
 			g.rdLabel = v.Label.Name
@@ -933,8 +1354,25 @@ func (g *gl) stmt(w *wr, s ast.Stmt) {
 		}
 	case *ast.BranchStmt:
 		if v.Tok == token.CONTINUE && v.Label == nil {
+			for k := len(g.loops) - 1; k >= 0; k-- { // `continue` looks through switches
+				if g.loops[k] != "switch" {
+					break
+				}
+			}
 			w.line("continue")
 			return
+		}
+		if v.Tok == token.BREAK && v.Label == nil && len(g.loops) > 0 {
+			switch top := g.loops[len(g.loops)-1]; {
+			case top == "for":
+				w.line("break")
+				return
+			case strings.HasPrefix(top, "while:"):
+				w.line("done_" + strings.TrimPrefix(top, "while:") + " := true")
+				w.line("break")
+				return
+			}
+			g.die(v, "break out of a switch")
 		}
 		if g.rdKind == "bytes" && v.Tok == token.BREAK && v.Label != nil && v.Label.Name == g.rdLabel {
 			w.line("broke := true")
@@ -961,7 +1399,8 @@ func (g *gl) stmt(w *wr, s ast.Stmt) {
 					if g.rdKind == "bytes" && n.Name == g.rdLoopVar {
 						continue // bound by the `for … in src` that replaces the ReadByte loop
 					}
-					w.line("let mut " + ln(n.Name) + " : " + g.leanType(t) + " := " + bareZero(g.zero(t)))
+					g.mut[g.info.Defs[n]] = true
+					w.line("let mut " + g.nameOf(g.info.Defs[n]) + " : " + g.leanType(t) + " := " + bareZero(g.zero(t)))
 				}
 			}
 			return
@@ -1085,6 +1524,29 @@ func (g *gl) stmt(w *wr, s ast.Stmt) {
 		} else if len(v.Results) == 1 {
 			w.line("return " + g.expr(v.Results[0]).opnd())
 			return
+		} else if g.rdKind == "" && len(v.Results) > 1 && len(v.Results) == len(g.results) {
+			var parts []string
+			for i, r := range v.Results {
+				e := g.expr(r)
+				if tv, ok := g.info.Types[r]; ok && tv.Value != nil {
+					parts = append(parts, "("+e.opnd()+" : "+g.leanType(g.results[i].Type())+")")
+				} else {
+					parts = append(parts, e.opnd())
+				}
+			}
+			w.line("return (" + strings.Join(parts, ", ") + ")")
+			return
+		} else if g.rdKind == "" && len(v.Results) == 0 && g.namedRes {
+			var parts []string
+			for _, r := range g.results {
+				parts = append(parts, g.nameOf(r))
+			}
+			if len(parts) == 1 {
+				w.line("return " + parts[0])
+			} else {
+				w.line("return (" + strings.Join(parts, ", ") + ")")
+			}
+			return
 		}
 	case *ast.IfStmt:
 		g.ifStmt(w, v, "if ")
@@ -1192,6 +1654,8 @@ func (g *gl) switchStmt(w *wr, v *ast.SwitchStmt) {
 	var def []ast.Stmt
 	hasDef := false
 	first := true
+	g.loops = append(g.loops, "switch")
+	defer func() { g.loops = g.loops[:len(g.loops)-1] }()
 	for _, st := range v.Body.List {
 		cc := st.(*ast.CaseClause)
 		if cc.List == nil {
@@ -1267,6 +1731,29 @@ func (g *gl) forStmt(w *wr, v *ast.ForStmt) {
 	if g.readByteLoop(w, v) {
 		return
 	}
+	if v.Init == nil && v.Post == nil && v.Cond != nil && g.rdKind == "" && g.yieldT == "" {
+		// for cond { … }: at most `fuel` iterations; running out of fuel is `none` (no claim)
+		g.usesFuel = true
+		g.nWhile++
+		k := fmt.Sprintf("%d", g.nWhile)
+		w.line("let mut done_" + k + " := false")
+		w.line("for _ in List.range fuel do")
+		w.ind++
+		w.line("if !(" + g.expr(v.Cond).opnd() + ") then")
+		w.ind++
+		w.line("done_" + k + " := true")
+		w.line("break")
+		w.ind--
+		g.loops = append(g.loops, "while:"+k)
+		g.block(w, v.Body.List)
+		g.loops = g.loops[:len(g.loops)-1]
+		w.ind--
+		w.line("if !done_" + k + " then")
+		w.ind++
+		w.line("(none : Option Unit)")
+		w.ind--
+		return
+	}
 	// for i := A; i < B; i++ / i += c      and      for i := E; i >= 0; i--
 	init, ok := v.Init.(*ast.AssignStmt)
 	if !ok || init.Tok != token.DEFINE || len(init.Lhs) != 1 {
@@ -1313,14 +1800,19 @@ func (g *gl) forStmt(w *wr, v *ast.ForStmt) {
 	}
 	// Go re-evaluates the condition on every iteration; the translation evaluates the bound once
 	wr := writtenIn(v.Body)
+	whole := writtenWhole(v.Body)
+	outside := identsOutsideLen(cond.Y)
 	for n := range identsIn(cond.Y) {
-		if wr[n] {
+		// a bound that uses n only as len(n) is unaffected by element writes n[i] = …
+		if wr[n] && (whole[n] || outside[n]) {
 			g.die(v, "loop bound depends on "+n+", which the body writes")
 		}
 	}
-	w.line("for " + ln(iv.Name) + " in " + rng + " do")
+	w.line("for " + g.nameOf(g.objOf(iv)) + " in " + rng + " do")
 	w.ind++
+	g.loops = append(g.loops, "for")
 	g.block(w, v.Body.List)
+	g.loops = g.loops[:len(g.loops)-1]
 	w.ind--
 }
 
@@ -1328,9 +1820,12 @@ func (g *gl) rangeStmt(w *wr, v *ast.RangeStmt) {
 	if v.Tok != token.DEFINE || v.Key == nil {
 		g.die(v, "range form")
 	}
-	k := &ast.Ident{Name: ln(v.Key.(*ast.Ident).Name)}
 	xt := g.typeOf(v.X)
-	x := g.expr(v.X)
+	x := g.expr(v.X) // before the loop variables are named: they are not in scope here
+	k := &ast.Ident{Name: "_"}
+	if kid := v.Key.(*ast.Ident); kid.Name != "_" {
+		k.Name = g.nameOf(g.objOf(kid))
+	}
 	if x.act {
 		g.die(v, "range over an expression with effects")
 	}
@@ -1362,7 +1857,10 @@ func (g *gl) rangeStmt(w *wr, v *ast.RangeStmt) {
 		if _, isStr := xt.Underlying().(*types.Basic); isStr {
 			g.die(v, "range over a string (runes)")
 		}
-		val := &ast.Ident{Name: ln(v.Value.(*ast.Ident).Name)}
+		val := &ast.Ident{Name: "_"}
+		if vid := v.Value.(*ast.Ident); vid.Name != "_" {
+			val.Name = g.nameOf(g.objOf(vid))
+		}
 		if k.Name == "_" {
 			w.line("for " + val.Name + " in " + x.opnd() + " do")
 		} else {
@@ -1372,7 +1870,9 @@ func (g *gl) rangeStmt(w *wr, v *ast.RangeStmt) {
 		g.die(v, "range operand")
 	}
 	w.ind++
+	g.loops = append(g.loops, "for")
 	g.block(w, v.Body.List)
+	g.loops = g.loops[:len(g.loops)-1]
 	w.ind--
 }
 
@@ -1412,6 +1912,72 @@ func writtenIn(n ast.Node) map[string]bool {
 			if id, ok := v.Fun.(*ast.Ident); ok && (id.Name == "copy" || id.Name == "delete") && len(v.Args) >= 1 {
 				root(v.Args[0])
 			}
+		}
+		return true
+	})
+	return out
+}
+
+// names written other than element-wise (x = …, x op= …, x++, copy(x…), delete(x, …), x.f = …)
+func writtenWhole(n ast.Node) map[string]bool {
+	out := map[string]bool{}
+	root := func(e ast.Expr) {
+		elem := false
+		for {
+			switch x := e.(type) {
+			case *ast.IndexExpr:
+				e, elem = x.X, true
+				continue
+			case *ast.SliceExpr:
+				e, elem = x.X, false
+				continue
+			case *ast.SelectorExpr:
+				e = x.X
+				continue
+			case *ast.ParenExpr:
+				e = x.X
+				continue
+			case *ast.Ident:
+				if !elem {
+					out[x.Name] = true
+				}
+			}
+			return
+		}
+	}
+	ast.Inspect(n, func(n ast.Node) bool {
+		switch v := n.(type) {
+		case *ast.AssignStmt:
+			for _, l := range v.Lhs {
+				root(l)
+			}
+		case *ast.IncDecStmt:
+			root(v.X)
+		case *ast.CallExpr:
+			if id, ok := v.Fun.(*ast.Ident); ok && (id.Name == "copy" || id.Name == "delete") && len(v.Args) >= 1 {
+				for k := range identsIn(v.Args[0]) {
+					out[k] = true
+				}
+			}
+		}
+		return true
+	})
+	return out
+}
+
+// identifiers of an expression that occur anywhere but as the sole argument of len(…)
+func identsOutsideLen(e ast.Node) map[string]bool {
+	out := map[string]bool{}
+	ast.Inspect(e, func(n ast.Node) bool {
+		if c, ok := n.(*ast.CallExpr); ok {
+			if id, ok := c.Fun.(*ast.Ident); ok && id.Name == "len" && len(c.Args) == 1 {
+				if _, ok := c.Args[0].(*ast.Ident); ok {
+					return false
+				}
+			}
+		}
+		if id, ok := n.(*ast.Ident); ok {
+			out[id.Name] = true
 		}
 		return true
 	})
@@ -1506,6 +2072,9 @@ func (g *gl) checkAliasing(body ast.Node) {
 func (g *gl) findMutated(body ast.Node) {
 	g.mut = map[types.Object]bool{}
 	g.declared = map[string]bool{}
+	g.names = map[types.Object]string{}
+	g.takenMut = map[string]bool{}
+	g.nTmp, g.nWhile, g.loops = 0, 0, nil
 	g.checkAliasing(body)
 	mark := func(e ast.Expr) {
 		for {
@@ -1514,6 +2083,12 @@ func (g *gl) findMutated(body ast.Node) {
 				e = x.X
 				continue
 			case *ast.SliceExpr:
+				e = x.X
+				continue
+			case *ast.SelectorExpr:
+				e = x.X
+				continue
+			case *ast.ParenExpr:
 				e = x.X
 				continue
 			case *ast.Ident:
@@ -1685,32 +2260,66 @@ func (g *gl) funcOrMethod(recvType, goName, name, rel, placeholder string) {
 			}
 			st, ok := rt.Underlying().(*types.Struct)
 			if !ok {
-				g.die(fd, "receiver is not a struct")
+				// a method of a named non-struct type (a map, a slice, …): the receiver is an ordinary parameter
+				params = append(params, "("+g.nameOf(robj)+" : "+g.leanType(robj.Type())+")")
+				if g.mut[robj] {
+					shadow = append(shadow, g.nameOf(robj))
+				}
+			} else {
+				var fs []string
+				for i := 0; i < st.NumFields(); i++ {
+					f := st.Field(i)
+					fs = append(fs, f.Name())
+					params = append(params, "("+rn.Name+"_"+f.Name()+" : "+g.leanType(f.Type())+")")
+				}
+				g.structLoc[robj] = fs
 			}
-			var fs []string
-			for i := 0; i < st.NumFields(); i++ {
-				f := st.Field(i)
-				fs = append(fs, f.Name())
-				params = append(params, "("+rn.Name+"_"+f.Name()+" : "+g.leanType(f.Type())+")")
-			}
-			g.structLoc[robj] = fs
 		}
 		for _, fl := range sig.Params.List {
 			for _, pn := range fl.Names {
-				params = append(params, "("+ln(pn.Name)+" : "+g.leanType(g.info.Defs[pn].Type())+")")
+				params = append(params, "("+g.nameOf(g.info.Defs[pn])+" : "+g.leanType(g.info.Defs[pn].Type())+")")
 				if g.mut[g.info.Defs[pn]] {
-					shadow = append(shadow, ln(pn.Name))
+					shadow = append(shadow, g.nameOf(g.info.Defs[pn]))
 				}
 			}
 		}
-		if sig.Results == nil || len(sig.Results.List) != 1 || len(sig.Results.List[0].Names) > 1 {
+		if sig.Results == nil || len(sig.Results.List) == 0 {
 			g.die(fd, "result list")
+		}
+		g.usesFuel = false
+		g.results, g.namedRes = nil, false
+		{
+			fo, _ := g.info.Defs[fd.Name].(*types.Func)
+			if fo == nil {
+				g.die(fd, "function object")
+			}
+			rs := fo.Type().(*types.Signature).Results()
+			for i := 0; i < rs.Len(); i++ {
+				g.results = append(g.results, rs.At(i))
+				if rs.At(i).Name() != "" && rs.At(i).Name() != "_" {
+					g.namedRes = true
+				}
+			}
+			if g.namedRes {
+				for i := 0; i < rs.Len(); i++ {
+					if rs.At(i).Name() == "" || rs.At(i).Name() == "_" {
+						g.die(fd, "partly named result list")
+					}
+				}
+			}
 		}
 		body := fd.Body.List
 		w := &wr{b: &bytes.Buffer{}, ind: 1}
 		resT := ""
 		doc := ""
 		rt := g.info.Types[sig.Results.List[0].Type].Type
+		if len(g.results) > 1 {
+			var ts []string
+			for _, r := range g.results {
+				ts = append(ts, paren(g.leanType(r.Type())))
+			}
+			resT = "(" + strings.Join(ts, " × ") + ")"
+		}
 		if named, ok := rt.(*types.Named); ok && named.Obj().Pkg() != nil && named.Obj().Pkg().Path() == "iter" && named.Obj().Name() == "Seq" {
 			// return func(yield func(T) bool) { ... }
 			if len(body) != 1 {
@@ -1732,11 +2341,19 @@ func (g *gl) funcOrMethod(recvType, goName, name, rel, placeholder string) {
 			w.line("let mut log : " + resT + " := []")
 			body = fl.Body.List
 			doc = "; `yield` is the consumer -- ANY deterministic consumer, stateful ones included: it is given the list of all items handed to it so far, the current one last -- and the result is the log of yielded items"
-		} else {
+		} else if len(g.results) == 1 {
 			resT = g.leanType(rt)
 		}
 		for _, s := range shadow {
+			g.takenMut[s] = true
 			w.line("let mut " + s + " := " + s)
+		}
+		if g.namedRes && g.yieldT == "" {
+			// named results are variables, zero-initialised
+			for _, r := range g.results {
+				g.mut[r] = true
+				w.line("let mut " + g.nameOf(r) + " : " + g.leanType(r.Type()) + " := " + bareZero(g.zero(r.Type())))
+			}
 		}
 		g.block(w, body)
 		if g.yieldT != "" {
@@ -1744,6 +2361,11 @@ func (g *gl) funcOrMethod(recvType, goName, name, rel, placeholder string) {
 		}
 		g.yieldT = ""
 		globals := g.sortedGlobals()
+		if g.usesFuel {
+			params = append([]string{"(fuel : Nat)"}, params...)
+			g.funcs[name].fuel = true
+			doc += "; `fuel` bounds every `for cond { }` loop (out of fuel = `none`, no claim)"
+		}
 		all := strings.TrimSpace(g.globalParams(globals) + " " + strings.Join(params, " "))
 		src := goName
 		if recvType != "" {
@@ -2398,6 +3020,25 @@ func goLean(repo, out string) {
 		"def sam_Write (s_Qname : "+B+") (s_Flag : Int) (s_Rname : "+B+") (s_Pos : Int) (s_Mapq : Int) (s_Cigar : "+B+") (s_Rnext : "+B+") (s_Pnext : Int) (s_Tlen : Int) (s_Seq : "+B+") (s_Qual : "+B+") (s_TagTexts : "+BB+") (w : Wr) : Option (GoErr × Wr) := none",
 		map[string][2]string{"tagsToText": {"s_TagTexts", BB}})
 	w.WriteString(g5.funcs["sam_Write"].text + "\n")
+	// align: the substitution-matrix lookup and both dynamic programmes with their tracebacks.
+	// float64 scores are translated as Int (the declared abstraction of the hand model too: scores are
+	// integers below 2^53, for which float64 addition and comparison are exact; DESIGN §15.2)
+	g7 := loadPkg(filepath.Join(repo, "align"))
+	g7.floatInt, floatAsInt = true, true
+	const MT, BL = "List (List UInt8 × Int)", "List (Int × UInt8)"
+	g7.methodNames = map[string]string{"SubstitutionMatrix.Get": "Matrix_Get"}
+	g7.method("SubstitutionMatrix", "Get", "Matrix_Get", "align", "def Matrix_Get (m : "+MT+") (a : UInt8) (b : UInt8) : Option Int := none")
+	g7.function("decideOnStep", "align", "def decideOnStep (mch : Int) (del : Int) (ins : Int) : Option (Int × UInt8) := none")
+	g7.function("traceAlignmentSteps", "align", "def traceAlignmentSteps (fuel : Nat) (blocks : "+BL+") (bn : Int) : Option (("+B+") × Int) := none")
+	g7.function("Global", "align", "def Global (fuel : Nat) (a : "+B+") (b : "+B+") (m : "+MT+") : Option (("+B+") × Int) := none")
+	g7.function("argmax", "align", "def argmax (blocks : "+BL+") : Option Int := none")
+	g7.function("traceAlignmentStepsLocal", "align", "def traceAlignmentStepsLocal (fuel : Nat) (blocks : "+BL+") (bn : Int) : Option (("+B+") × Int × Int) := none")
+	g7.function("Local", "align", "def Local (fuel : Nat) (a : "+B+") (b : "+B+") (m : "+MT+") : Option (("+B+") × Int × Int × Int) := none")
+	floatAsInt = false
+	for _, n := range g7.order {
+		w.WriteString(g7.funcs[n].text)
+		w.WriteString("\n")
+	}
 	fmt.Fprintln(w, "end Bio.Generated.GoSrc")
 	os.Remove(out)
 	if err := os.WriteFile(out, w.Bytes(), 0o644); err != nil {
